@@ -273,6 +273,8 @@ struct simcfg {
 	long stop_at_parkable; /* park at the k-th parkable call (recv/cancellable sleep), wherever it is; 0 = none */
 	bool c08_mode; /* end when now >= last disturbance + bound */
 	bool others; /* populate two other sources */
+	long stop_in_callback; /* k > 0: the driver is woken from inside the k-th prefix update callback of the socket's own records, i.e. while the FSM
+				* thread is in the middle of applying a response, and calls rtr_stop() right then */
 	/* fuzzing: raw answer bytes for queries with override AO_RAW, and raw bytes delivered while the client idles */
 	size_t (*rawgen)(struct sim *s, uint8_t *out, size_t cap, uint64_t fuzz_seed, int where);
 	uint64_t fuzz_seed;
@@ -371,6 +373,8 @@ struct sim {
 	bool spin_reported;
 	sem_t done, resume, ready_to_die;
 	volatile bool stop_request;
+	long own_callbacks; /* prefix update callbacks for records of this socket */
+	volatile bool woke_driver_from_callback;
 	struct mevent mev[MAX_MEV];
 	int nmev;
 	int last_state;
